@@ -10,10 +10,15 @@
    [dfield]  the abstract differential field standing for "all smooth functions and all points" (DESIGN 4.2);
    [tens_eq S t r]  same mathematical shape and entry-wise equal values in S;
    [gdef S lg d e]  every intermediate value is defined in S (no vanishing denominator, ...), cf. C05's sdf;
-   [regular]   the guard that excludes the two CONFIRMED DEFECTS of the code (arithmetic on the Tuple returned
-               by Cross_3d; Dot of a matrix) and what is not modelled (matrix products, symbolic exponents,
-               elementary functions, literal tuples / matrices): the unguarded statements are refuted below;
-   [supported] well-shaped trees whose operators exist in dimension d. *)
+   [regular]   what the soundness induction covers: everything except what is NOT MODELLED classically (matrix
+               products, symbolic exponents, elementary functions, literal tuples / matrices).  Since the repairs
+               14cf28b (Cross_3d returns a column matrix) and 1e0454e (matrix arms of Dot_2d / Dot_3d) it no longer
+               excludes any defect, and every supported tree is regular in dimension 2 and 3;
+   [supported] well-shaped trees whose operators exist in dimension d.
+   History: before those two repairs this file carried refutations of the unguarded statements
+   (C01_dot_matrix_refuted, C01_cross_tuple_refuted, C01_lowering_total_refuted, C01_dot_matrix_arm_refuted) and
+   the theorems were ..._partial with a guard against the defects; the witnesses are now checked to lower
+   correctly (C01_former_defect_witnesses_repaired).  The 1-D totality failure remains (known finding). *)
 From Coq Require Import String ZArith List Bool Arith.
 From V Require Import Core.Terminal Core.DField Core.Classical Gen.Formulas Model.LowerM Proofs.LowerP.
 Import ListNotations. Open Scope string_scope.
@@ -75,7 +80,7 @@ Theorem C01_table_bracket_2d : tab_ok2 false OBracket 2 = true /\ tab_ok2 true O
 Proof. exact (conj bracket_2d_correct logical_bracket_2d_correct). Qed.
 Print Assumptions C01_table_bracket_2d.
 
-(* vector . vector arms only: the matrix arms are the confirmed defect, see C01_dot_matrix_arm_refuted *)
+(* all arms: vector . vector, matrix . vector, vector . matrix (the matrix arms since the repair 1e0454e) *)
 Theorem C01_table_dot : (tab_ok2 false ODot 1 = true /\ tab_ok2 true ODot 1 = true) /\
                         (tab_ok2 false ODot 2 = true /\ tab_ok2 true ODot 2 = true) /\
                         (tab_ok2 false ODot 3 = true /\ tab_ok2 true ODot 3 = true).
@@ -87,9 +92,10 @@ Theorem C01_table_cross : (tab_ok2 false OCross 2 = true /\ tab_ok2 true OCross 
 Proof. exact (conj cross_2d_correct cross_3d_correct). Qed.
 Print Assumptions C01_table_cross.
 
-Theorem C01_table_inner : (tab_ok2 false OInner 2 = true /\ tab_ok2 true OInner 2 = true) /\
+Theorem C01_table_inner : (tab_ok2 false OInner 1 = true /\ tab_ok2 true OInner 1 = true) /\
+                          (tab_ok2 false OInner 2 = true /\ tab_ok2 true OInner 2 = true) /\
                           (tab_ok2 false OInner 3 = true /\ tab_ok2 true OInner 3 = true).
-Proof. exact (conj inner_2d_correct inner_3d_correct). Qed.
+Proof. exact (conj inner_1d_correct (conj inner_2d_correct inner_3d_correct)). Qed.
 Print Assumptions C01_table_inner.
 
 (* the extraction is complete and nothing was replaced by a fail-closed marker; the registries and the
@@ -108,11 +114,20 @@ Proof. exact registries_ok. Qed.
 Print Assumptions C01_registries.
 
 (* ---------------------------------------------------------------- (ii) soundness of lowering *)
-(* FULL STATEMENT (false on the faithful model, see the refutations):
-     forall S lg d e t r, 1 <= d <= 3 -> gdef S lg d e -> lower lg d e = Some t -> gden lg d e = Some r -> tens_eq S t r.
-   Proved with the guard [regular]: by induction on the tree, for every depth and shape, every
-   differential field, dimensions 1..3, physical and logical derivatives, quotients and powers with
-   literal exponents included. *)
+(* By induction on the tree, for every depth and shape, every differential field, physical and logical
+   derivatives, quotients and powers with literal exponents included.
+   d = 2, 3: the whole supported fragment.  d = 1..3: every regular tree (also unsupported ones). *)
+Theorem C01_lowering_sound : forall (S : dfield) lg d e t r,
+  d = 2 \/ d = 3 -> supported lg d e = true -> gdef S lg d e ->
+  lower lg d e = Some t -> gden lg d e = Some r -> tens_eq S t r.
+Proof. exact lower_sound_supported. Qed.
+Print Assumptions C01_lowering_sound.
+
+Theorem C01_supported_trees_are_regular : forall lg d e,
+  d = 2 \/ d = 3 -> supported lg d e = true -> regular lg d e = true.
+Proof. exact supported_regular. Qed.
+Print Assumptions C01_supported_trees_are_regular.
+
 Theorem C01_lowering_sound_partial : forall (S : dfield) lg d e t r,
   1 <= d <= 3 -> regular lg d e = true -> gdef S lg d e ->
   lower lg d e = Some t -> gden lg d e = Some r -> tens_eq S t r.
@@ -138,18 +153,17 @@ Proof. exact lower_cshape_partial. Qed.
 Print Assumptions C01_same_mathematical_shape_partial.
 
 (* ---------------------------------------------------------------- (iii) shape, (iv) totality: d = 2, 3 *)
-(* FULL STATEMENT of totality (false, see C01_lowering_total_refuted):
-     forall lg d e, 1 <= d <= 3 -> supported lg d e = true -> exists t, lower lg d e = Some t. *)
-Theorem C01_lowering_total_partial : forall lg d e,
-  d = 2 \/ d = 3 -> supported lg d e = true -> regular lg d e = true -> exists t, lower lg d e = Some t.
-Proof. exact lower_total_partial. Qed.
-Print Assumptions C01_lowering_total_partial.
+(* full strength on the supported fragment; in dimension 1 totality is false, see C01_lowering_total_1d_refuted *)
+Theorem C01_lowering_total : forall lg d e,
+  d = 2 \/ d = 3 -> supported lg d e = true -> exists t, lower lg d e = Some t.
+Proof. exact lower_total. Qed.
+Print Assumptions C01_lowering_total.
 
-Theorem C01_lowering_shape_partial : forall lg d e s t,
-  d = 2 \/ d = 3 -> shape_of d e = Some s -> leaves_ok lg d e = true -> regular lg d e = true ->
+Theorem C01_lowering_shape : forall lg d e s t,
+  d = 2 \/ d = 3 -> shape_of d e = Some s -> leaves_ok lg d e = true ->
   lower lg d e = Some t -> kind_in d s t.
-Proof. exact lower_shape_partial. Qed.
-Print Assumptions C01_lowering_shape_partial.
+Proof. exact lower_shape. Qed.
+Print Assumptions C01_lowering_shape.
 
 Theorem C01_tables_total : forall lg d, d = 2 \/ d = 3 ->
   (forall o, tab_total1 lg o d = true) /\ (forall o, tab_total2 lg o d = true).
@@ -175,48 +189,37 @@ Theorem C01_refuses_rot_bracket_outside_2d : forall lg d a b, d = 1 \/ d = 3 ->
 Proof. intros. split; [now apply lower_none_rot|now apply lower_none_bracket]. Qed.
 Print Assumptions C01_refuses_rot_bracket_outside_2d.
 
-Theorem C01_refuses_curl_cross_inner_1d : forall lg a b,
-  lower lg 1 (GOp1 OCurl a) = None /\ lower lg 1 (GOp2 OCross a b) = None /\ lower lg 1 (GOp2 OInner a b) = None.
+(* (Inner_1d exists since d70b390) *)
+Theorem C01_refuses_curl_cross_1d : forall lg a b,
+  lower lg 1 (GOp1 OCurl a) = None /\ lower lg 1 (GOp2 OCross a b) = None.
 Proof. exact lower_none_1d. Qed.
-Print Assumptions C01_refuses_curl_cross_inner_1d.
+Print Assumptions C01_refuses_curl_cross_1d.
 
-(* ---------------------------------------------------------------- the unguarded statements are false *)
-Theorem C01_lowering_sound_refuted : forall S : dfield, exists lg d e t r,
-  1 <= d <= 3 /\ supported lg d e = true /\ lower lg d e = Some t /\ gden lg d e = Some r /\ ~ tens_eq S t r.
-Proof. exact lower_sound_refuted. Qed.
-Print Assumptions C01_lowering_sound_refuted.
+(* ---------------------------------------------------------------- dimension 1; the former defects *)
+(* 1-D (known finding): F + grad(f) and div(f grad f) are supported but lowering fails *)
+Theorem C01_lowering_total_1d_refuted :
+  supported true 1 (GAdd [GOp1 OGrad (GSF "f"); GVF "F"]) = true /\
+  lower true 1 (GAdd [GOp1 OGrad (GSF "f"); GVF "F"]) = None /\
+  supported false 1 (GOp1 ODiv (GMul [GSF "f"; GOp1 OGrad (GSF "f")])) = true /\
+  lower false 1 (GOp1 ODiv (GMul [GSF "f"; GOp1 OGrad (GSF "f")])) = None.
+Proof. exact lower_total_1d_refuted. Qed.
+Print Assumptions C01_lowering_total_1d_refuted.
 
-Theorem C01_dot_matrix_refuted :
-  exists t r, supported false 2 (GOp2 ODot (GVF "G") (GOp1 OGrad (GVF "F"))) = true /\
-              lower false 2 (GOp2 ODot (GVF "G") (GOp1 OGrad (GVF "F"))) = Some t /\
-              gden false 2 (GOp2 ODot (GVF "G") (GOp1 OGrad (GVF "F"))) = Some r /\
-              cshape t = (1, 1) /\ cshape r = (2, 1) /\ regular false 2 (GOp2 ODot (GVF "G") (GOp1 OGrad (GVF "F"))) = false.
-Proof. exact lower_sound_refuted_dot_matrix. Qed.
-Print Assumptions C01_dot_matrix_refuted.
+(* dot(grad F, G) in 2-D and 3-D, 2*cross(F,G), f*cross(F,G), cross(F,G)+curl(H), dot(B,cross(F,G)),
+   laplace(cross(F,G))+F: supported, lowered, equal to the classical value *)
+Theorem C01_former_defect_witnesses_repaired :
+  forallb (fun de => supported false (fst de) (snd de) &&
+                     match lower false (fst de) (snd de), gden false (fst de) (snd de) with
+                     | Some t, Some r => teqv t r
+                     | _, _ => false
+                     end) former_witnesses = true.
+Proof. exact repaired_witnesses. Qed.
+Print Assumptions C01_former_defect_witnesses_repaired.
 
-Theorem C01_cross_tuple_refuted :
-  exists t r, supported false 3 (GMul [GNum 2 1; GOp2 OCross (GVF "F") (GVF "G")]) = true /\
-              lower false 3 (GMul [GNum 2 1; GOp2 OCross (GVF "F") (GVF "G")]) = Some t /\
-              gden false 3 (GMul [GNum 2 1; GOp2 OCross (GVF "F") (GVF "G")]) = Some r /\
-              cshape t = (6, 1) /\ cshape r = (3, 1) /\ regular false 3 (GMul [GNum 2 1; GOp2 OCross (GVF "F") (GVF "G")]) = false.
-Proof. exact lower_sound_refuted_cross_tuple. Qed.
-Print Assumptions C01_cross_tuple_refuted.
-
-Theorem C01_lowering_total_refuted :
-  supported false 3 (GMul [GSF "f"; GOp2 OCross (GVF "F") (GVF "G")]) = true /\
-  lower false 3 (GMul [GSF "f"; GOp2 OCross (GVF "F") (GVF "G")]) = None /\
-  supported false 3 (GAdd [GOp2 OCross (GVF "F") (GVF "G"); GOp1 OCurl (GVF "H")]) = true /\
-  lower false 3 (GAdd [GOp2 OCross (GVF "F") (GVF "G"); GOp1 OCurl (GVF "H")]) = None /\
-  supported false 3 (GOp2 ODot (GVF "B") (GOp2 OCross (GVF "F") (GVF "G"))) = true /\
-  lower false 3 (GOp2 ODot (GVF "B") (GOp2 OCross (GVF "F") (GVF "G"))) = None.
-Proof. exact lower_total_refuted. Qed.
-Print Assumptions C01_lowering_total_refuted.
-
-Theorem C01_dot_matrix_arm_refuted :
-  exists x, table_of "Dot_2d" "mc" = Some (GenOk (Sc x)) /\
-  exists v, cl2 false ODot 2 (wrap FMat 2 (gen_flat false "m" 2)) (wrap FVec 2 (gen_flat true "c" 2)) = Some (Vec v) /\ length v = 2.
-Proof. exact dot_2d_matrix_arm_refuted. Qed.
-Print Assumptions C01_dot_matrix_arm_refuted.
+Theorem C01_no_class_returns_a_tuple :
+  forallb (fun nt => forallb (fun kr => match snd kr with GenOk (Vec _) => false | _ => true end) (snd nt)) tables = true.
+Proof. exact tables_no_tuple. Qed.
+Print Assumptions C01_no_class_returns_a_tuple.
 
 (* ---------------------------------------------------------------- non-vacuity *)
 (* div(f grad g) + dot(curl F, curl G) + 2 laplace(f) in 3-D: supported, regular, lowered, with a classical
